@@ -6,7 +6,7 @@ from worlds.reqpath import make_legacy, ReqPathRun, base_plan, RETRY_NEXT_HOST
 from worlds.full import ReqObs
 
 ID = 'C20'
-TIERS = {'quick': {'runs': 4000, 'budget_s': 55, 'wall_cap': 120, 'block': 60},
+TIERS = {'quick': {'runs': 12000, 'budget_s': 55, 'wall_cap': 120, 'block': 60},
          'thorough': {'runs': 400000, 'budget_s': 840, 'wall_cap': 120, 'block': 60}}
 SHRINK_LISTS = ['requests', 'switches']
 COVERAGE_RULE = ('one run = real Session over 2-4 fake nodes (protocol 3/4); 1-2 keyspace switches (USE statement with '
